@@ -184,7 +184,7 @@ PROPS = {
     "C02": dict(
         level="proof",
         level_text="Unbounded deductive proof (Verus) on the real bodies of parse_tls_raw_record, parse_tls_encrypted and parse_tls_plaintext (sliced from /repo each run) of the RFC 8446 5.1 framing contract: header fields big-endian, cap 2^14+256 -> Error(TooLarge) whatever follows, Incomplete iff strict prefix with Needed == missing bytes, payload exactly the declared bytes, remainder untouched - for every input length. For plaintext the payload parser's verdict is glued on exactly (payload, header) and 'a whole record never answers Incomplete' is a lemma proved in unit `many`. Independently, Kani checks raw/encrypted on the compiled code, complete up to the cap in the thorough tier.",
-        level_note="Trusted: nom shim contracts take / map_parser / make_error (Kani shim_take, shim_map_parser on the real nom, bounded in input length, full domain in count); the derive-generated header parser is external_body in Verus and a full-domain Kani obligation (fd_record_header); R4 (const -> exec const, value PROVED == 16640), R6, R9 (closure signature made explicit + its ensures spliced; elided lifetime named). The plaintext unit assumes axiom_prwh_never_incomplete, which is lemma_record_never_incomplete of unit `many` (both run by this check).",
+        level_note="Trusted: nom shim contracts take / map_parser / make_error (Kani shim_take, shim_map_parser on the real nom, bounded in input length, full domain in count); the derive-generated header parser is proved from the macro expansion (R13) and is also a full-domain Kani obligation on the compiled code (fd_record_header); R4 (const -> exec const, value PROVED == 16640), R6, R9 (closure signature made explicit + its ensures spliced; elided lifetime named). The plaintext unit assumes axiom_prwh_never_incomplete, which is lemma_record_never_incomplete of unit `many` (both run by this check).",
         technique="contract-based deductive verification: Verus postconditions on the extracted framing functions; Kani full-domain harnesses on the compiled code",
         verus=["frame", "plaintext", "many"],
         kani=[dict(quick=["fd_record_header", "fd_raw_record_small", "fd_encrypted_small", "shim_take", "shim_be", "shim_map_parser", "shim_complete", "shim_many1", "leaf_prwh_heartbeat"],
@@ -209,12 +209,12 @@ PROPS = {
     ),
     "C10": dict(
         level="proof",
-        level_text="Unbounded deductive proofs (Verus) on the real parse_dtls_message_handshake (12-byte header fields verbatim, take(fragment_length), is_fragment <=> offset>0 or fragment_length<length, Fragment of exactly fragment_length bytes, body table, Switch otherwise), parse_dtls_plaintext_record (13-byte header, cap, Incomplete iff truncated with exact Needed, glue), parse_dtls_record_with_header and parse_dtls_plaintext_records (explicit loops). The 13-byte header decode is a full-domain Kani proof; the body parsers ClientHello with cookie (unit hellos: every field at its offset incl. the cookie between session id and cipher suites, all rejection rules, every cut-off Incomplete) and HelloVerifyRequest (unit bodies2) are proved unbounded in Verus as well and cross-checked by Kani contract harnesses on the compiled code, bounded in input length.",
+        level_text="Unbounded deductive proofs (Verus) on the real parse_dtls_message_handshake (12-byte header fields verbatim, take(fragment_length), is_fragment <=> offset>0 or fragment_length<length, Fragment of exactly fragment_length bytes, body table, Switch otherwise), parse_dtls_plaintext_record (13-byte header, cap, Incomplete iff truncated with exact Needed, glue), parse_dtls_record_with_header and parse_dtls_plaintext_records (explicit loops). The 13-byte header decode is proved in Verus too (unit dtls: type, version, the epoch as the top 16 bits and the sequence number as the low 48 bits of the 64-bit word - bit-vector lemma - and the length) and is a full-domain Kani proof on the compiled code; the body parsers ClientHello with cookie (unit hellos: every field at its offset incl. the cookie between session id and cipher suites, all rejection rules, every cut-off Incomplete) and HelloVerifyRequest (unit bodies2) are proved unbounded in Verus as well and cross-checked by Kani contract harnesses on the compiled code, bounded in input length.",
         level_note="Trusted: nom shims (be_u8/16/24, take, map, map_parser, complete, many1); DTLS body parsers uninterpreted in unit dtls (proved in units hellos / bodies2); R9 (closure signature + ensures), R10 (constructor eta-expanded into a closure with its trivial contract); ServerHello/Certificate/ServerDone/ClientKeyExchange bodies are the C04 parsers (checked there).",
         technique="contract-based deductive verification: Verus on extracted dispatcher/record glue + Kani full-domain header harness and leaf harnesses",
         verus=["dtls", "dtls_many", "bodies2", "hellos"],
         standins=[dict(name="framing_boundaries", kind="bounded-execution", bound="declared lengths {0,1,2,3,16383..16385,16639..16641,32768,65535} x 3 content types x 8 prefix cuts, TLS raw/encrypted/plaintext/tls_parser + DTLS record (372 cases)", payload={"framing_boundary_check": 1})],
-        kani=[dict(quick=["fd_dtls_header", "fd_dtls_ccs_alert", "fd_dtls_is_fragment", "leaf_dtls_hvr", "leaf_dtls_fragment", "mod_dtls_client_hello", "shim_be", "shim_take", "shim_map_parser", "shim_many1"], timeout=900)],
+        kani=[dict(quick=["fd_dtls_header", "fd_dtls_ccs_alert", "fd_dtls_is_fragment", "leaf_dtls_hvr", "leaf_dtls_fragment", "mod_dtls_client_hello", "shim_be", "shim_be64", "shim_take", "shim_map_parser", "shim_many1", "shim_verify"], timeout=900)],
         explanation="see level_text",
     ),
     "C16": dict(
